@@ -95,6 +95,26 @@ def run_impl(factors, hermitian, nparams, reqs, fault=None):
         return outs, raised, calls[0]
     return outs, [sorted(set(l)) for l in logs], calls[0]
 
+def run_two_operators(factors, hermitian, nparams, reqs):
+    """the same series objects multiplied twice, with two different element products: a @ b, then 2 (a @ b) — the second product of k factors is
+    2^(k-1) times the first, whatever was computed (and cached anywhere) for the first"""
+    series = []
+    for f, fac in enumerate(factors):
+        def ev(*idx, fac=fac):
+            v = fac["elems"].get(tuple(int(x) for x in idx), zero)
+            return one if isinstance(v, str) else v
+        series.append(BlockSeries(eval=ev, shape=(fac["rows"], fac["cols"]), n_infinite=nparams, name=f"F{f}"))
+    pa = cauchy_dot_product(*series, operator=lambda a, b: a @ b, hermitian=hermitian)
+    va = [pa[tuple(r)] for r in reqs]
+    pb = cauchy_dot_product(*series, operator=lambda a, b: 2 * (a @ b), hermitian=hermitian)
+    vb = [pb[tuple(r)] for r in reqs]
+    bad = []
+    for r, a, b in zip(reqs, va, vb):
+        if (a is zero) != (b is zero): bad.append(list(r)); continue
+        if a is zero: continue
+        if not np.array_equal(np.asarray(b), 2 ** (len(factors) - 1) * np.asarray(a)): bad.append(list(r))
+    return bad
+
 def main(seed, ncases, driver, out):
     import re
     rnd = random.Random(seed); failures = []; stats = {}; samples = []; evals = 0; distinct = 0; fstats = {}
@@ -125,6 +145,12 @@ def main(seed, ncases, driver, out):
             # breaks the correspondence, it is not yet a failing input of the property — unless an element was requested whose complementary
             # element of the other factor is absent (`zero` at the time), which the property forbids
             failures.append({"case": c, "kind": "request-log-mismatch", "correspondence_only": True, "input": js, "impl": logs, "model": [sorted(l) for l in mlogs]})
+        elif len(factors) >= 3 and c % 2 == 0 and not any(v.startswith("E:") for v in mvals) and not any(isinstance(v, str) for f in factors for v in f["elems"].values()):
+            # (no identity sentinels among the elements: they are not passed through the operator)
+            fstats["two operators on the same series"] = fstats.get("two operators on the same series", 0) + 1
+            try: bad2 = run_two_operators(factors, hermitian, nparams, reqs)
+            except Exception as e: bad2 = ["raises " + type(e).__name__ + ": " + str(e)[:80]]
+            if bad2: failures.append({"case": c, "kind": "second-product-with-another-operator-differs", "input": js, "requests": bad2[:5]})
         elif ncalls > 0 and not any(v.startswith("E:") for v in mvals):
             # fault phase (C11): the k-th multiplication raises once; the exception must reach the caller (RuntimeError wrapped),
             # and the repeated request must return the model's undisturbed value
